@@ -79,21 +79,21 @@ end ramp
 section history
 variable [Add R] [Sub R] [Mul R] [Div R] [Neg R] [RealLike R] [Zero R]
 /-- a plane's OPD/tilt history: OPD updates and tilt fits (with whatever coefficients the solver returned) -/
-inductive Op (R : Type) where
+inductive TiltOp (R : Type) where
   | update (d : Int → Int → R)
   | fit (t1 t2 : R)
 
 /-- state after a history: current OPD and the recorded tilts, oldest first -/
-def run (s0 s1 : Int) (px0 px1 : R) (mask : Int → Int → R) :
-    List (Op R) → (Int → Int → R) × List (R × R) → (Int → Int → R) × List (R × R)
+def tiltRun (s0 s1 : Int) (px0 px1 : R) (mask : Int → Int → R) :
+    List (TiltOp R) → (Int → Int → R) × List (R × R) → (Int → Int → R) × List (R × R)
   | [], st => st
-  | Op.update d :: ops, (opd, ts) => run s0 s1 px0 px1 mask ops (fun i j => opd i j + d i j, ts)
-  | Op.fit t1 t2 :: ops, (opd, ts) => run s0 s1 px0 px1 mask ops (fitTiltOpd s0 s1 px0 px1 mask opd t1 t2, ts ++ [(t1, t2)])
+  | TiltOp.update d :: ops, (opd, ts) => tiltRun s0 s1 px0 px1 mask ops (fun i j => opd i j + d i j, ts)
+  | TiltOp.fit t1 t2 :: ops, (opd, ts) => tiltRun s0 s1 px0 px1 mask ops (fitTiltOpd s0 s1 px0 px1 mask opd t1 t2, ts ++ [(t1, t2)])
 
-def updatesSum : List (Op R) → Int → Int → R
+def tiltUpdatesSum : List (TiltOp R) → Int → Int → R
   | [], _, _ => 0
-  | Op.update d :: ops, i, j => d i j + updatesSum ops i j
-  | Op.fit _ _ :: ops, i, j => updatesSum ops i j
+  | TiltOp.update d :: ops, i, j => d i j + tiltUpdatesSum ops i j
+  | TiltOp.fit _ _ :: ops, i, j => tiltUpdatesSum ops i j
 
 end history
 
